@@ -320,6 +320,20 @@ def c13(res):
                 "against BFS layers (Graph!Layers), discovery length against MinWitnessDepth; TLC's own BFS level equals "
                 "the layer (MCGraph!LevelIsLayer)")
     run_family(res, "C13", FIELDS["C13"], graphs, cfgs)
+    # more than one 1500-state block: depth order across block boundaries, shortest witnesses deep in the graph
+    import fam_market
+    wd = workdir("C13big-%s" % res.tier)
+    big = [g for g in fam_market.f4_graphs(rng, q) if g["family"] in ("tree", "grid", "affine")][: (3 if q else 8)]
+    for g in big:
+        n = g["n"]
+        g["props"] = [dict(kind="always", name="keep", sat=[], mode="all", m=0, r=0),
+                      dict(kind="sometimes", name="w1", sat=[], mode="mod", m=rng.choice([1501, 1777, 2999]), r=rng.randint(0, 1400)),
+                      dict(kind="sometimes", name="w2", sat=[], mode="mod", m=n, r=(n * 3 // 4) % n)]
+
+    def bcfgs(i, g):
+        return [gg.base_cfg("bfs", 1, light=True, watchdog_ms=60000)]
+    fam_market.checker_runs(res, "C13", big, bcfgs, ["bfs_depth", "shortest", "complete"], wd, "c13big")
+    shutil.rmtree(wd, ignore_errors=True)
 
 
 def c10(res):
